@@ -126,12 +126,18 @@ static MPT_STRUCT(buffer) *_mpt_buffer_alloc_detach(MPT_STRUCT(buffer) *ptr, siz
 	next->_content_traits = traits;
 	
 	/* require content copy */
-	if (mpt_refcount_lower(&buf->_ref)) {
+	if (buf->_ref._val > 1) {
 		const MPT_STRUCT(buffer) *src = &buf->buf;
-		if (mpt_buffer_set(next, src->_content_traits, 0, src + 1, src->_used) < 0) {
+		size_t used = src->_used;
+		if (used > len) {
+			used = len;
+		}
+		if (mpt_buffer_set(next, src->_content_traits, 0, src + 1, used) < 0) {
 			_mpt_buffer_alloc_unref(next);
 			return 0;
 		}
+		/* reference is replaced by new instance */
+		mpt_refcount_lower(&buf->_ref);
 	}
 	/* move data content */
 	else {
